@@ -57,14 +57,17 @@ def run(ctx):
 def run_suite(ctx, only_best=False):
     ctx.suites_run.append(SUITE)
     rng = ctx.rng
-    ctx.rule("populations: all cost vectors of length 1..L over the alphabet {-inf,-1,0,0,2.5,+inf} (ties included; L=4 quick, 6 thorough; "
+    ctx.rule("populations: all cost vectors of length 1..L over the alphabet {-inf,-1,0,0,2.5,+inf} (ties included; L=4 quick, 5 thorough plus a sample of 2500 of length 6; "
              "multisets enumerated with every order) plus random sizes up to 200, plus vectors over pools of neighbouring doubles (0 / 1e-17 / 2e-17, ±5e-324, 1 ± 1 ulp, −1 ± 1 ulp, 1e16 + {0,2,4}, 1e308 / next / inf, 0.1+0.2 / 0.3); × all n in 0..size × both directions × every helper and combinator; "
              "after a subset of cases the caller uses up a returned list (reverse + pop) and asks again: same answer; non-trivial = population of size ≥ 2 (size-1 cases counted as trivial); distinct by (helper, direction, cost vector, n)")
-    L = 6 if ctx.thorough else 4
+    L = 5 if ctx.thorough else 4
     pops = []
     for k in range(1, L + 1):
         for combo in itertools.product(sorted(set(ALPHABET)), repeat=k):
             pops.append(list(combo))
+    if ctx.thorough:       # length 6: a seeded sample of the 15 625 vectors (the exhaustive set made the batch of model requests too large to hold)
+        six = list(itertools.product(sorted(set(ALPHABET)), repeat=6))
+        pops.extend(list(c) for c in rng.sample(six, 2500))
     for _ in range(40 if not ctx.thorough else 400):
         k = rng.choice([7, 10, 25, 50, 200])
         pops.append([rng.choice([rng.uniform(-5, 5), float(rng.randrange(-3, 4)), math.inf, -math.inf]) for _ in range(k)])
@@ -83,7 +86,7 @@ def run_suite(ctx, only_best=False):
         ids = [id(a) for a in agents]
         pj = pop_json(costs)
         nontriv = len(costs) >= 2
-        ns = range(0, len(costs) + 1) if len(costs) <= 6 else sorted({0, 1, 2, len(costs) // 2, len(costs) - 1, len(costs)})
+        ns = range(0, len(costs) + 1) if len(costs) <= 4 else sorted({0, 1, 2, len(costs) // 2, len(costs) - 1, len(costs)})
         for d, tt in DIRS.items():
             base = {"costs": repr(costs), "dir": d}
             # sort_by_cost
@@ -140,7 +143,8 @@ def run_suite(ctx, only_best=False):
                         ctx.fail(f"C16/{name}/different-costs-than-agent-variant", f"{r} vs {tags(r2) if ok2 else r2} on {costs}", SUITE, meta)
                 # special_agents with both, only best, only worst
                 # both counts are independent: also overlapping requests (n_best + n_worst > size, up to both = size)
-                for nb, nw in ((n, len(costs) - n), (n, None), (None, n), (n, len(costs)), (len(costs), n), (n, n), (n, min(len(costs), len(costs) - n + 1))):
+                for nb, nw in (((n, len(costs) - n), (n, None), (None, n), (n, len(costs)), (len(costs), n), (n, n), (n, min(len(costs), len(costs) - n + 1)))
+                               if len(costs) <= 4 else ((n, len(costs) - n), (n, None), (None, n), (n, n))):
                     ok, r = call(helpers.special_agents, agents, nb, nw, tt)
                     C.add({"op": "sel.special", "pop": pj, "dir": d, "nb": nb, "nw": nw},
                           [tags(r[0]), tags(r[1])] if ok else rerr(r), {**meta, "op": "special_agents", "nb": nb, "nw": nw})
